@@ -129,8 +129,8 @@ def run(prop, tier, seed, replay=None):
                     'z' * 15, 'v' * 16, 'u' * 23, 't' * 24, 's' * 25, '#5000', '-LRB-', '[', '--', '%s',
                     u'10\u00a0000', u'z.\u202fB.', u'a\u3000b', u'\u00a0x', u'p\u2028q']
             for k in range(150 if tier == 'quick' else 2500):
-                T = treeio.random_tree(rnd, nmax=8 if tier == 'quick' else 11, maxcons=6, labels=('S', 'NP', 'VP-X'),
-                                       edges=('HD', '--', 'NK'), tags=('NN', '$('), tokedges=('--', 'HD'),
+                T = treeio.random_tree(rnd, nmax=8 if tier == 'quick' else 11, maxcons=6, labels=('S', 'NP', 'VP-X', 'N"&<P'),
+                                       edges=('HD', '--', 'NK', 'O"A'), tags=('NN', '$(', 'A"<'), tokedges=('--', 'HD'),
                                        words=lambda r_, p_: (lambda x: x + str(p_) if x == 'w' else x)(r_.choice(pool)))
                 none_f = rnd.choice([[], [], ['lemma'], ['morph'], ['edge'], ['lemma', 'morph', 'edge']])
                 for x in T['nodes']:
